@@ -6,15 +6,17 @@ SPEC = dict(
     level_text="Random histories (30-200 steps) of searches through every wrapper entry point, InvalidateCache, EnableCache, CleanupExpiredCache, "
                "virtual-time advances around the 5-minute TTL and database replacements; consecutive searches differ in exactly one option field with "
                "high probability and databases are built so that each field changes the answer, which is the two-step pattern that exposes a field "
-               "missing from the cache key. After every search the uncached engine is asked 5 times (stable-reference rule) and the answers compared.",
+               "missing from the cache key. After every search the uncached engine is asked 5 times (stable-reference rule) and the answers compared. "
+               "An eighth of the histories use databases of 150-650 entries with limits above 100 (answers of hundreds of results, repeated), a quarter "
+               "contain long queries (up to 4 KiB) that agree up to a byte offset near a power of two or the 1000-byte bound and differ afterwards.",
     level_note="Reference = SearchUniversal on the same object (index staleness is C03's business). Tie-tolerant comparison; an unstable reference makes the case inconclusive, never red.",
     engines=[dict(name="cachehist", shards=T(16, 16), timeout=T(900, 3600))],
     rule="case = one search step inside a history; non-trivial = a step whose options differ in exactly one field from the previous search of the same "
          "(case-folded) query AND whose fresh answer differs from that previous answer ('answer-changing delta'), distinct by (history, query, field, step).",
-    floors=T({"hit-steps": 1500, "miss-steps": 1500, "repeat-hit": 300, "case-variant-hit": 50, "op-update-database": 100, "op-advance": 100,
+    floors=T({"hit-steps": 1000, "miss-steps": 1500, "hits-with-over-100-results": 20, "hits-with-query-over-1000-bytes": 15, "long-twin-queries": 100, "repeat-hit": 300, "case-variant-hit": 50, "op-update-database": 100, "op-advance": 100,
               "answer-changing-delta:AllPlatforms": 20, "answer-changing-delta:TopTermsCap": 5, "answer-changing-delta:Limit": 20,
               "answer-changing-delta:UseNLP": 20, "answer-changing-delta:PipelineOnly": 20, "answer-changing-delta:Platforms": 10, "answer-changing-delta:NoCrossPlatform": 10, "distinct_nontrivial": 300},
-             {"hit-steps": 15000, "miss-steps": 15000, "repeat-hit": 3000, "case-variant-hit": 500, "op-update-database": 1000, "op-advance": 1000,
+             {"hit-steps": 15000, "miss-steps": 15000, "hits-with-over-100-results": 500, "hits-with-query-over-1000-bytes": 300, "long-twin-queries": 2000, "repeat-hit": 3000, "case-variant-hit": 500, "op-update-database": 1000, "op-advance": 1000,
               "answer-changing-delta:AllPlatforms": 200, "answer-changing-delta:TopTermsCap": 50, "answer-changing-delta:Limit": 200,
               "answer-changing-delta:UseNLP": 200, "answer-changing-delta:PipelineOnly": 200, "answer-changing-delta:Platforms": 100, "answer-changing-delta:NoCrossPlatform": 100, "distinct_nontrivial": 3000}),
     assumptions=["whitespace-padded variants are outside the property's quantifier (repeats and case variants) and are not generated",
